@@ -2,12 +2,10 @@
 import PM.Step
 import Proofs.StepToks
 import Proofs.Marks
+import Proofs.MarkEffect
 namespace PM
 
 /-! ### markup bookkeeping -/
-
-theorem sameMarkup_tyOf (S : Schema) {a b : Node} (h : a.sameMarkup b = true) : S.tyOf a = S.tyOf b := by
-  cases a <;> cases b <;> simp_all [Node.sameMarkup, Schema.tyOf, Node.tyOr]
 
 theorem sameMarkup_join {a b c : Node} (h1 : a.sameMarkup c = true) (h2 : b.sameMarkup c = true) :
     a.sameMarkup b = true := by
@@ -164,21 +162,6 @@ theorem merge_replace_toks (S : Schema) (d d1 d2 d' : Node) (f t f' t' : Nat) (s
 
 /-! ### mark / mark -/
 
-theorem ctxAux_shape : ∀ (l l' : List Tok) (st : List TypeId),
-    l.map Tok.shape = l'.map Tok.shape → ctxAux st l = ctxAux st l'
-  | [], [], _, _ => rfl
-  | [], _ :: _, _, h => by simp at h
-  | _ :: _, [], _, h => by simp at h
-  | a :: r, b :: r', st, h => by
-    simp only [List.map_cons, List.cons.injEq] at h
-    obtain ⟨hab, hr⟩ := h
-    cases a <;> cases b <;> simp [Tok.shape] at hab <;>
-      simp [ctxAux, hab, ctxAux_shape r r' _ hr]
-
-theorem mapIdxCtx_length (g : Nat → TypeId → Tok → Tok) (top : TypeId) (l : List Tok) :
-    (mapIdxCtx g top l).length = l.length := by
-  simp [mapIdxCtx]
-
 /-- two index/context-wise maps that keep the shapes compose pointwise -/
 theorem mapIdxCtx_comp (g1 g2 g : Nat → TypeId → Tok → Tok) (top : TypeId) (l : List Tok)
     (hshape : ∀ i p tok, (g1 i p tok).shape = tok.shape)
@@ -214,18 +197,6 @@ theorem withMarks_withMarks (m m' : Marks) (tok : Tok) :
     (tok.withMarks m).withMarks m' = tok.withMarks m' := by cases tok <;> rfl
 
 /-- adding the same mark twice is adding it once -/
-theorem addToSet_idem (S : Schema) (m : Mark) (s : Marks) :
-    m.addToSet S (m.addToSet S s) = m.addToSet S s := by
-  rw [addToSet_eq S m s]
-  split
-  · rename_i hc
-    rw [addToSet_eq, if_pos hc]
-  · rw [addToSet_eq, if_pos]
-    have : m ∈ insertByRank m (s.filter (fun o => !S.excludes m.ty o.ty)) :=
-      (mem_insertByRank m m _).mpr (Or.inl rfl)
-    simp only [Bool.or_eq_true, List.any_eq_true, beq_iff_eq]
-    exact Or.inl ⟨m, this, rfl⟩
-
 theorem removeFromSet_idem (m : Mark) (s : Marks) :
     m.removeFromSet (m.removeFromSet s) = m.removeFromSet s := by
   simp [Mark.removeFromSet]
